@@ -204,6 +204,9 @@ func Convert(value any, typ reflect.Type) (any, error) { //nolint: gocyclo
 			}
 			key = key.Convert(typ.Key())
 			ev := rv.MapIndex(key)
+			if !ev.IsValid() {
+				continue // a NaN key: listed, but it has no entry that a lookup can reach
+			}
 			if et.Kind() == reflect.String {
 				ev = reflect.ValueOf(fmt.Sprint(ev))
 			}
